@@ -41,7 +41,7 @@ func sweepSlabSizes(r *Run) {
 		go func(mine []string) {
 			defer wg.Done()
 			cmd := exec.Command(exe, "__sweep", strings.Join(mine, ","))
-			cmd.Env = append(os.Environ(), "GOMAXPROCS=1")
+			cmd.Env = append(os.Environ(), "GOMAXPROCS=1", "VERIF_TIER="+r.Tier)
 			out, err := cmd.CombinedOutput()
 			mu.Lock()
 			defer mu.Unlock()
@@ -135,5 +135,86 @@ func sweepOne(T uint32) (int, string) {
 	if err := RunOracles(w, Spec{Oracles: []string{"sem", "regs", "size"}}); err != nil {
 		return len(script), fmt.Sprintf("final: %v", err)
 	}
-	return len(script), ""
+	nops := len(script)
+	// deep fill for the smaller slab sizes: enough limit-sized elements to split an INDEX slab (the fan-out, and
+	// whether it is odd or even, is a function of the slab size), positional / keyed reads of every element,
+	// then a drain from the front until the tree is shallow again
+	deepLimit := uint32(1100)
+	if os.Getenv("VERIF_TIER") == "thorough" {
+		deepLimit = 3000
+	}
+	if T <= deepLimit {
+		for _, isMap := range []bool{false, true} {
+			fan := int((maxT-12)/14) + 1
+			cl, first := "limA", Op{K: "newarr"}
+			if isMap {
+				fan = int((maxT-12)/18) + 1
+				cl, first = "limM", Op{K: "newmap"}
+			}
+			need := fan*3 + 12
+			w2 := NewWorld(T)
+			w2.KeyOf = KeyOfDefault
+			if isMap {
+				// caller-placed ascending digests: the tree grows at its right edge like the array's
+				w2.Digests = NewDigestTable()
+				w2.KeyOf = func(n int) MV { return Scalar{uint64(n)} }
+				setCollisionLimit(255)
+			}
+			if err := w2.Apply(first); err != nil {
+				return nops, err.Error()
+			}
+			full := func(when string) string {
+				if err := w2.DeepCheck(); err != nil {
+					return fmt.Sprintf("deep fill (%s, %s): %v", cl, when, err)
+				}
+				if err := w2.LookupCheck(); err != nil {
+					return fmt.Sprintf("deep fill (%s, %s): %v", cl, when, err)
+				}
+				if err := OStructInRepo(w2); err != nil {
+					return fmt.Sprintf("deep fill (%s, %s): %v", cl, when, err)
+				}
+				if err := OStructIndependent(w2, w2.DoWalk(), "in memory"); err != nil {
+					return fmt.Sprintf("deep fill (%s, %s): %v", cl, when, err)
+				}
+				return ""
+			}
+			for i := 0; i < need; i++ {
+				o := Op{K: "append", C: 0, V: cl}
+				if isMap {
+					o = Op{K: "mset", C: 0, Key: i, V: cl}
+				}
+				nops++
+				if err := w2.Apply(o); err != nil {
+					return nops, fmt.Sprintf("deep fill: %s: %v", o, err)
+				}
+				if i%97 == 96 {
+					if m := full(fmt.Sprintf("after %d elements", i+1)); m != "" {
+						return nops, m
+					}
+				}
+			}
+			if m := full(fmt.Sprintf("after all %d elements", need)); m != "" {
+				return nops, m
+			}
+			for i := 0; i < need-fan/2; i++ {
+				o := Op{K: "remove", C: 0, I: 0}
+				if isMap {
+					o = Op{K: "mremove", C: 0, Key: i}
+				}
+				nops++
+				if err := w2.Apply(o); err != nil {
+					return nops, fmt.Sprintf("deep drain: %s: %v", o, err)
+				}
+				if i%97 == 96 {
+					if m := full(fmt.Sprintf("after %d removals", i+1)); m != "" {
+						return nops, m
+					}
+				}
+			}
+			if m := full("after the drain"); m != "" {
+				return nops, m
+			}
+		}
+	}
+	return nops, ""
 }
